@@ -69,6 +69,16 @@ def run(ctx):
         for i, x in zip(idx, o): outs[i] = x
         fails += fl
     os.environ.pop('VERIF_SCHED_SEED', None)
+    # ---- freeing the threaded decoder while workers are inside their Blocks (AddressSanitizer build)
+    sdrv = compile_driver('san', 'drv_dec.c', 'drv_dec')
+    elines = []
+    for fi, f in enumerate(files):
+        if len(f) < 200: continue
+        for _k in range(3 if ctx.quick() else 25):
+            elines.append('dec 1 %d 6 %d 0 %s' % (LZMA_CONCATENATED, rng.randrange(1 << 20) * 8 + rng.randrange(8), f.hex()))
+    eo, ef = run_lines(sdrv, elines)
+    n_eval += len(elines)
+    for x in ef: viol.append(dict(why='threaded decoder freed early (lzma_end while workers run): crash / sanitizer report, rc %s' % x[2], line=(x[0] or '')[:300000], stderr=x[1][-2500:]))
     for x in fails: viol.append(dict(why='threaded decoder: crash / assertion / watchdog (deadlock or lost wake-up), rc %s' % x[2], line=(x[0] or '')[:300000], stderr=x[1][-1500:]))
     for (fi, flags, seed, mode, ml), l, o in zip(meta, lines, outs):
         if o is None or ref[fi] is None: continue
